@@ -76,11 +76,17 @@ let () =
   let opcount = Hashtbl.create 64 in
   let extra = Hashtbl.create 16 in
   let bump_extra k = Hashtbl.replace extra k (1 + try Hashtbl.find extra k with Not_found -> 0) in
-  let dead = ref false in
+  (* model_dead: the concrete model diverged (or panicked) -- only the MODEL replay of this case
+     stops; the property oracle keeps judging the implementation's observations to the end of
+     the case.  impl_dead: the implementation panicked, the harness ended the case. *)
+  let model_dead = ref false and impl_dead = ref false in
   let live : live list ref = ref [] in             (* the implementation's live allocations *)
   let live_vals : (string * live) list ref = ref [] in
   let kind_name = ref "?" in
+  let params : string list ref = ref [] in
   let cur_line = ref "" in
+  (* oracle context, from the case header and the implementation's own `new` observation *)
+  let o_lo = ref N0 and o_hi = ref N0 and o_rel = ref N0 in
   let flush_case () =
     if Buffer.length cur_case > 0 then begin
       let key = Digest.string (Buffer.contents cur_case) in
@@ -88,10 +94,11 @@ let () =
         Hashtbl.add seen key (); incr distinct_nontrivial end;
       Buffer.clear cur_case; cur_nontrivial := false
     end in
+  let stateless () = match !kind_name with "codec" | "mtd" | "pubsub" -> true | _ -> false in
   let mismatch_model om impl =
     incr mm_model;
     Printf.printf "MISMATCH case=%d op=%d kind=model line=[%s] model=%s impl=%s\n" !case_no !op_no !cur_line om impl;
-    dead := true in
+    if not (stateless ()) then model_dead := true in
   let mismatch_spec what impl =
     incr mm_spec;
     Printf.printf "MISMATCH case=%d op=%d kind=spec line=[%s] spec=%s impl=%s\n" !case_no !op_no !cur_line what impl in
@@ -102,19 +109,19 @@ let () =
     if Hashtbl.mem sigs sg then (incr mm_spec; bump_extra "spec_repeats_suppressed")
     else (Hashtbl.add sigs sg (); mismatch_spec what impl) in
   let cmp om impl = if om <> impl then mismatch_model om impl in
-  (* property oracle over the implementation's own live set *)
-  let oracle_alloc lo hi (addr : n) (size : n) (al : n) key =
+  let after_ok impl = String.sub impl 3 (String.length impl - 3) in
+  (* property oracle over the implementation's own live set, w.r.t. the REAL block [lo, hi) *)
+  let oracle_alloc (addr : n) (size : n) (al : n) key =
     let x = { lv_addr = addr; lv_size = size; lv_align = al } in
-    let l' = x :: !live in
     (* only the new allocation is judged (earlier offenders were reported when they appeared) *)
-    if not (live_ok_one lo hi x && live_disjoint_from x !live) then begin
+    if not (live_ok_one !o_lo !o_hi x && live_disjoint_from x !live) then begin
       let why =
         if not (N.eqb (N.modulo addr al) N0) then "misaligned"
-        else if not (live_ok_one lo hi x) then "out-of-bounds"
+        else if not (live_ok_one !o_lo !o_hi x) then "out-of-bounds"
         else "overlap" in
       mismatch_spec "inbounds+aligned+disjoint" why
     end else bump_extra "oracle_live_sets_checked";
-    live := l'; live_vals := (key, x) :: !live_vals in
+    live := x :: !live; live_vals := (key, x) :: !live_vals in
   let oracle_dealloc key =
     match List.assoc_opt key !live_vals with
     | None -> ()
@@ -122,32 +129,269 @@ let () =
       live_vals := List.remove_assoc key !live_vals;
       let removed = ref false in
       live := List.filter (fun y -> if (not !removed) && y == x then (removed := true; false) else true) !live in
+  (* clause on `new`: n buckets of the advertised bucket size, starting at the aligned start,
+     must fit into the real block: start >= lo, start aligned, start + n * bsize <= hi, and the
+     bucket size is at least the configured one *)
+  let oracle_new_fits (nb : n) (start : n) (bsize : n) (cfg_bs : n) (cfg_ba : n) impl =
+    if nb <> N0 && not (N.leb !o_lo start && N.leb (N.add start (N.mul nb bsize)) !o_hi) then
+      mismatch_spec "buckets-fit-into-block" impl
+    else if nb <> N0 && (not (N.eqb (N.modulo start cfg_ba) N0) || not (N.leb cfg_bs bsize)) then
+      mismatch_spec "start-aligned+bucket-size>=configured" impl
+    else bump_extra "oracle_new_fits_checked" in
+  (* ------------------------------------------------------------------------------------
+     the property oracle: judged on the implementation's observations only *)
+  let oracle name (a : int -> string) impl =
+    let is_ok = String.length impl >= 3 && String.sub impl 0 3 = "ok:" in
+    let p i = List.nth !params i in
+    match !kind_name, name with
+    | ("pool" | "fixed" | "calpool"), ("canary" | "guard") ->
+      if impl <> "1" then mismatch_spec (name ^ "-bytes-intact") impl else bump_extra "oracle_drain_canaries_checked"
+    | "pool", "new" when is_ok ->
+      (match split_colon impl with
+       | ["ok"; nb; start; bsz] -> oracle_new_fits (ns nb) (N.add vbase (ns start)) (ns bsz) (ns (p 0)) (ns (p 1)) impl
+       | _ -> ())
+    | "fixed", "new" ->
+      let bs = ns (p 1) and ba = ns (p 2) in
+      let ptr = !o_lo in
+      (* c15_fixed_ctor_total: the constructor returns an allocator for every block *)
+      if impl = "P" && bs <> N0 && N.leb (align ptr ba) !o_hi then mismatch_spec "ctor-returns" "P";
+      (match split_colon impl with
+       | ["ok"; nb; bsz] -> oracle_new_fits (ns nb) (align ptr ba) (ns bsz) bs ba impl
+       | _ -> ())
+    | ("pool" | "fixed"), "alloc" when is_ok ->
+      cur_nontrivial := true;
+      oracle_alloc (N.add vbase (ns (after_ok impl))) (ns (a 0)) (ns (a 1)) (after_ok impl)
+    | ("pool" | "fixed" | "onechunk" | "calpool"), "dealloc" -> oracle_dealloc (a 0)
+    | ("bump" | "onechunk"), "alloc" when is_ok ->
+      cur_nontrivial := true;
+      oracle_alloc (N.add vbase (ns (after_ok impl))) (ns (a 0)) (ns (a 1)) (after_ok impl)
+    | "calpool", "new" when is_ok ->
+      (match split_colon impl with
+       | ["ok"; nb; rel; bsz] ->
+         o_rel := ns rel;
+         oracle_new_fits (ns nb) (N.add !o_lo (ns rel)) (ns bsz) (ns (p 0)) (ns (p 1)) impl
+       | _ -> ())
+    | "calpool", "alloc" when is_ok ->
+      cur_nontrivial := true;
+      (* the pointer the shared memory hands out: payload start + offset *)
+      oracle_alloc (N.add (N.add !o_lo !o_rel) (po_offset (ns (after_ok impl)))) (ns (a 0)) (ns (a 1)) (after_ok impl)
+    | "calbump", "alloc" when is_ok ->
+      cur_nontrivial := true;
+      oracle_alloc (N.add !o_lo (po_offset (ns (after_ok impl)))) (ns (a 0)) (ns (a 1)) "-"
+    | "calbump", "reset" -> live := []; live_vals := []
+    | "codec", "make" ->
+      cur_nontrivial := true;
+      (* c15_offset_codec: round trip below 2^56 *)
+      (match split_colon impl with
+       | [_; o; s] ->
+         if N.ltb (ns (a 0)) (ns "72057594037927936") && (o <> a 0 || s <> a 1) then mismatch_spec "roundtrip" impl
+         else bump_extra "oracle_codec_roundtrips"
+       | _ -> mismatch_spec "roundtrip" impl)
+    | "codec", "setseg" ->
+      (match split_colon impl with
+       | [_; o; s] -> if o <> sn (po_offset (ns (a 0))) || s <> a 1 then mismatch_spec "setseg-keeps-offset" impl
+       | _ -> mismatch_spec "setseg-keeps-offset" impl)
+    | "mtd", "layout" ->
+      (* c15_chunk_layout_guard on the implementation's own numbers *)
+      (match split_colon impl with
+       | [s; al] -> if not (N.eqb (N.modulo (ns s) (ns al)) N0) then mismatch_spec "align-divides-size" impl
+                    else bump_extra "oracle_chunk_layouts_checked"
+       | _ -> mismatch_spec "align-divides-size" impl)
+    | "mtd", "uptr" ->
+      if not (N.eqb (N.modulo (N.add vbase (ns impl)) (ns (p 3))) N0) then mismatch_spec "user-header-aligned" impl
+    | "mtd", "pptr" ->
+      (match !st with
+       | SMtd m ->
+         if not (N.eqb (N.modulo (N.add vbase (ns impl)) m.m_payload.td_align) N0) then mismatch_spec "payload-aligned" impl;
+         (* payload of n elements ends inside the chunk when the chunk start is aligned *)
+         let h = ns (a 0) in
+         if N.eqb (N.modulo h (mtd_max_alignment m)) N0 then
+           List.iter (fun nn ->
+             let l = chunk_layout m (n_of_int nn) in
+             let pend = N.add (ns impl) (N.mul (align m.m_payload.td_size m.m_payload.td_align) (n_of_int nn)) in
+             if not (N.leb pend (N.add h l.lsize)) then mismatch_spec "payload-inside-chunk" impl
+             else bump_extra "oracle_payload_fits_checked") [0; 1; 3; 100]
+       | _ -> ())
+    | "dyn", "cap0" ->
+      (* header: kind strat hs ha n base_mod *)
+      let hs = ns (p 2) and ha = ns (p 3) and nn = int_of_string (p 4) and bm = ns (p 5) in
+      let guarded = N.eqb (N.modulo hs ha) N0 in
+      let start_misaligned = not (N.eqb (N.modulo (N.add vbase bm) ha) N0) in
+      (* c15_segment_enough for the dynamic segment, on the implementation's own number *)
+      if guarded then
+        (if int_of_string impl < nn then
+           mismatch_spec_sig (Printf.sprintf "cap0:lost=%d:misaligned=%b" (nn - int_of_string impl) start_misaligned)
+             ("segment0-holds>=" ^ string_of_int nn) impl
+         else bump_extra "oracle_segment_enough_checked")
+    | "dyn", "alloc" when is_ok ->
+      cur_nontrivial := true;
+      (match split_colon impl with
+       | ["ok"; _; aligned] -> if aligned <> "1" then mismatch_spec "payload-aligned" "misaligned" else bump_extra "oracle_dyn_alloc_aligned"
+       | _ -> ())
+    | "dyn", "dealloc" ->
+      (match split_colon impl with
+       | ["ok"; c] -> if c <> "1" then mismatch_spec "canary-intact" "corrupted" else bump_extra "oracle_canaries_checked"
+       | _ -> ())
+    | "dyn", "reg" ->
+      (match split_colon impl with
+       | ["ok"; c] -> if c <> "1" then mismatch_spec "payload-readable-through-view" "corrupted" else bump_extra "oracle_canaries_checked"
+       | _ -> if impl <> "P" then mismatch_spec "live-offset-resolves" impl)
+    | "dyn", "unreg" ->
+      (match split_colon impl with
+       | ["ok"; c] -> if c <> "1" then mismatch_spec "payload-readable-until-release" "corrupted" else bump_extra "oracle_canaries_checked"
+       | _ -> ())
+    | "dyn", "final" -> if impl <> "1" then mismatch_spec "all-live-canaries-intact" impl
+    | "pubsub", ("send" | "recv") ->
+      if impl <> "ok:1" then mismatch_spec (name ^ "-ok-aligned-intact") impl
+      else (cur_nontrivial := true; bump_extra "oracle_pubsub_samples_checked")
+    | "pubsub", "held" -> if impl <> "1" then mismatch_spec "held-samples-intact-across-growth" impl else bump_extra "oracle_pubsub_held_checked"
+    | "pubsub", "run" -> if impl <> "ok" then mismatch_spec "scenario-completes" impl
+    | _, _ -> () in
+  (* ------------------------------------------------------------------------------------
+     the concrete model replay (the tie) *)
+  let model name (a : int -> string) impl =
+    match !st, name with
+    | _, ("canary" | "guard") -> ()          (* drain-mode observations: oracle only *)
+    | SPoolPending [bs; ba; off; size], "new" ->
+      let ptr = N.add vbase (ns off) in
+      (match pool_new (lay bs ba) ptr (ns size) with
+       | Panic -> cmp "P" impl; model_dead := true
+       | Val p ->
+         cmp ("ok:" ^ sn p.p_nb ^ ":" ^ sn (N.sub p.p_start vbase) ^ ":" ^ sn p.p_bsize) impl;
+         st := SPool (p, ptr, N.add ptr (ns size)))
+    | SFixedPending [mx; bs; ba; off; size], "new" ->
+      let ptr = N.add vbase (ns off) in
+      (match fixed_pool_new (ns mx) N0 (lay bs ba) ptr (ns size) with
+       | Panic -> cmp "P" impl; model_dead := true
+       | Val p -> cmp ("ok:" ^ sn p.p_nb ^ ":" ^ sn p.p_bsize) impl; st := SPool (p, ptr, N.add ptr (ns size)))
+    | SPool (p, lo, hi), "alloc" ->
+      let (p', r) = pool_allocate p (lay (a 0) (a 1)) in
+      cmp (show_ares vbase r) impl; st := SPool (p', lo, hi)
+    | SPool (p, lo, hi), "dealloc" ->
+      (match pool_deallocate p (N.add vbase (ns (a 0))) with
+       | Panic -> cmp "P" impl; model_dead := true
+       | Val p' -> cmp "ok" impl; st := SPool (p', lo, hi))
+    | SBump (b, lo, hi), "alloc" ->
+      let (b', r) = bump_allocate b (lay (a 0) (a 1)) in
+      cmp (show_ares vbase r) impl; st := SBump (b', lo, hi)
+    | SBump (b, _, _), "used" -> cmp (sn b.b_pos) impl
+    | SOne (o, lo, hi), "alloc" ->
+      (match oc_allocate o (lay (a 0) (a 1)) with
+       | Panic -> cmp "P" impl; model_dead := true
+       | Val (o', r) -> cmp (show_ares vbase r) impl; st := SOne (o', lo, hi))
+    | SOne (o, lo, hi), "dealloc" ->
+      (match oc_deallocate o (N.add vbase (ns (a 0))) with
+       | Panic -> cmp "P" impl; model_dead := true
+       | Val o' -> cmp "ok" impl; st := SOne (o', lo, hi))
+    | SCalPoolPending [bs; ba; off; size; maxmem], "new" ->
+      let ptr = N.add vbase (ns off) in
+      (match cal_new (ns maxmem) ptr (ns size) (lay bs ba) with
+       | Panic -> cmp "P" impl; model_dead := true
+       | Val c ->
+         cmp ("ok:" ^ sn c.cp_pool.p_nb ^ ":" ^ sn (cal_relative_start c) ^ ":" ^ sn c.cp_pool.p_bsize) impl;
+         st := SCalPool (c, ptr, N.add ptr (ns size)))
+    | SCalPool (c, _, _), "init" ->
+      cmp (if cal_init_ok c then "ok" else "err") impl; if impl <> "ok" then model_dead := true
+    | SCalPool (c, lo, hi), "alloc" ->
+      let (c', r) = cal_allocate c (lay (a 0) (a 1)) in
+      cmp (show_ares N0 r) impl; st := SCalPool (c', lo, hi)
+    | SCalPool (c, lo, hi), "dealloc" ->
+      (match cal_deallocate c (ns (a 0)) with
+       | Panic -> cmp "P" impl; model_dead := true
+       | Val c' -> cmp "ok" impl; st := SCalPool (c', lo, hi))
+    | SCalPool (c, _, _), "hint" ->
+      let (l, cnt) = cal_resize_hint c (lay (a 0) (a 1)) (strat_of (a 2)) in
+      cmp (sn l.lsize ^ ":" ^ sn l.lalign ^ ":" ^ sn (setup_payload_size l cnt)) impl
+    | SCalBumpPending [off; size], "new" ->
+      let ptr = N.add vbase (ns off) in
+      cmp ("ok:" ^ size ^ ":0") impl;
+      st := SCalBump (cb_new ptr (ns size), ptr, N.add ptr (ns size))
+    | SCalBump (c, lo, hi), "alloc" ->
+      let (c', r) = cb_allocate c (lay (a 0) (a 1)) in
+      cmp (show_ares N0 r) impl; st := SCalBump (c', lo, hi)
+    | SCalBump (c, lo, hi), "reset" -> cmp "ok" impl; st := SCalBump (cb_deallocate c, lo, hi)
+    | SCalBump (c, _, _), "hint" -> cmp (sn (cb_resize_hint c (lay (a 0) (a 1)) (strat_of (a 2)))) impl
+    | SCodec, "make" ->
+      let v = po_make (ns (a 0)) (ns (a 1)) in
+      cmp (sn v ^ ":" ^ sn (po_offset v) ^ ":" ^ sn (po_segment v)) impl
+    | SCodec, "setseg" ->
+      let v = po_set_segment (ns (a 0)) (ns (a 1)) in
+      cmp (sn v ^ ":" ^ sn (po_offset v) ^ ":" ^ sn (po_segment v)) impl
+    | SCodec, "raw" -> let v = ns (a 0) in cmp (sn (po_offset v) ^ ":" ^ sn (po_segment v)) impl
+    | SCodec, "new" -> cmp (sn (po_new (ns (a 0)))) impl
+    | SMtd m, "hdrlen" -> cmp (sn (all_headers_len m)) impl; cur_nontrivial := true
+    | SMtd m, "maxalign" -> cmp (sn (mtd_max_alignment m)) impl
+    | SMtd m, "layout" -> let l = chunk_layout m (ns (a 0)) in cmp (sn l.lsize ^ ":" ^ sn l.lalign) impl
+    | SMtd m, "uptr" -> cmp (sn (N.sub (user_header_ptr_from_header m (N.add vbase (ns (a 0)))) vbase)) impl
+    | SMtd m, "pptr" -> cmp (sn (N.sub (payload_ptr_from_header m (N.add vbase (ns (a 0)))) vbase)) impl
+    | SDynPending (strat, hs, ha, nn, bm), "new" ->
+      let base = N.add vbase (ns bm) in
+      (match dyn_new (n_of_int 4096) base (strat_of strat) (lay hs ha) (ns nn) with
+       | Panic -> cmp "P" impl; model_dead := true
+       | Val None -> cmp "err" impl; model_dead := true
+       | Val (Some d) -> cmp "ok" impl; st := SDyn (d, view_new, true, int_of_string nn))
+    | SDyn (d, _, _, nn), "cap0" ->
+      (match alookup N0 d.d_segs with
+       | Some sg -> cmp (sn (N.min sg.s_cal.cp_pool.p_nb (n_of_int (nn + 2)))) impl
+       | None -> mismatch_model "no-seg0" impl)
+    | SDyn (d, v, g, nn), "alloc" ->
+      (match dyn_allocate d (lay (a 0) (a 1)) with
+       | DPanic -> cmp "P" impl; model_dead := true
+       | DOutOfFuel -> mismatch_model "OutOfFuel" impl
+       | DVal (d', AErr e) -> cmp ("err:" ^ err_name e) impl; st := SDyn (d', v, g, nn)
+       | DVal (d', AOk off) ->
+         (match split_colon impl with
+          | ["ok"; value; _] -> if value <> sn off then mismatch_model ("ok:" ^ sn off) impl
+          | _ -> mismatch_model ("ok:" ^ sn off) impl);
+         st := SDyn (d', v, g, nn))
+    | SDyn (d, v, g, nn), "dealloc" ->
+      (match dyn_deallocate d (ns (a 0)) with
+       | Panic -> cmp "P" impl; model_dead := true
+       | Val d' ->
+         (match split_colon impl with ["ok"; _] -> () | _ -> mismatch_model "ok" impl);
+         st := SDyn (d', v, g, nn))
+    | SDyn (d, v, g, nn), "reg" ->
+      let (v', r) = view_register (fun id -> match alookup id d.d_segs with Some _ -> true | None -> false) v (ns (a 0)) in
+      (match r with
+       | None -> cmp "err" impl
+       | Some (id, off) ->
+         (* the view resolves to (segment id, offset) of the offset the sender produced *)
+         if not (N.eqb id (po_segment (ns (a 0))) && N.eqb off (po_offset (ns (a 0)))) then mismatch_model "resolve" impl;
+         (match split_colon impl with ["ok"; _] -> () | _ -> mismatch_model "ok" impl));
+      st := SDyn (d, v', g, nn)
+    | SDyn (d, v, g, nn), "unreg" ->
+      (match split_colon impl with ["ok"; _] -> () | _ -> mismatch_model "ok" impl);
+      st := SDyn (d, view_unregister v (ns (a 0)), g, nn)
+    | SDyn (d, v, _, _), "nsegs" -> cmp (sn (dyn_nsegs d) ^ ":" ^ sn (view_nsegs v)) impl
+    | SDyn _, "final" -> ()
+    | SPubSub, _ -> ()
+    | _, _ -> mismatch_model "unexpected-op" impl in
   (try
     while true do
       let line = input_line stdin in
       cur_line := line;
       let toks = List.filter (fun s -> s <> "") (String.split_on_char ' ' line) in
       match toks with
-      | "C" :: kind :: params ->
-        flush_case (); incr case_no; op_no := 0; dead := false; live := []; live_vals := [];
-        kind_name := kind;
+      | "C" :: kind :: ps ->
+        flush_case (); incr case_no; op_no := 0; model_dead := false; impl_dead := false; live := []; live_vals := [];
+        kind_name := kind; params := ps; o_rel := N0;
         Buffer.add_string cur_case (line ^ "|");
-        (match kind, params with
-         | "pool", _ -> st := SPoolPending params
-         | "fixed", _ -> st := SFixedPending params
+        (* the real block [lo, hi) known to the harness, at the virtual base *)
+        let set_block off size = o_lo := N.add vbase (ns off); o_hi := N.add !o_lo (ns size) in
+        (match kind, ps with
+         | "pool", [_; _; off; size] -> set_block off size; st := SPoolPending ps
+         | "fixed", [_; _; _; off; size] -> set_block off size; st := SFixedPending ps
          | "bump", [off; size] ->
-           let ptr = N.add vbase (ns off) in
-           st := SBump (bump_new ptr (ns size), ptr, N.add ptr (ns size))
+           set_block off size; st := SBump (bump_new !o_lo (ns size), !o_lo, !o_hi)
          | "onechunk", [off; size] ->
-           let ptr = N.add vbase (ns off) in
-           st := SOne (oc_new ptr (ns size), ptr, N.add ptr (ns size))
-         | "calpool", _ -> st := SCalPoolPending params
-         | "calbump", _ -> st := SCalBumpPending params
+           set_block off size; st := SOne (oc_new !o_lo (ns size), !o_lo, !o_hi)
+         | "calpool", [_; _; off; size; _] -> set_block off size; st := SCalPoolPending ps
+         | "calbump", [off; size] -> set_block off size; st := SCalBumpPending ps
          | "codec", _ -> st := SCodec
          | "pubsub", _ -> st := SPubSub
-         | "mtd", [hs; ha; us; ua; ps; pa] ->
+         | "mtd", [hs; ha; us; ua; ps'; pa] ->
            st := SMtd { m_header = { td_size = ns hs; td_align = ns ha }; m_uheader = { td_size = ns us; td_align = ns ua };
-                        m_payload = { td_size = ns ps; td_align = ns pa } }
+                        m_payload = { td_size = ns ps'; td_align = ns pa } }
          | "dyn", [_; strat; hs; ha; nn; bm] -> st := SDynPending (strat, hs, ha, nn, bm)
          | _ -> failwith ("unknown case " ^ line))
       | "O" :: name :: rest ->
@@ -158,227 +402,12 @@ let () =
         Buffer.add_string cur_case (name ^ " " ^ String.concat " " args ^ ";");
         let k = !kind_name ^ "." ^ name in
         Hashtbl.replace opcount k (1 + try Hashtbl.find opcount k with Not_found -> 0);
-        let is_ok = String.length impl >= 3 && String.sub impl 0 3 = "ok:" in
-        if not !dead then begin
-          let a i = List.nth args i in
-          match !st, name with
-          (* ------------------------------------------------------------ bb pool *)
-          | SPoolPending [bs; ba; off; size], "new" ->
-            let ptr = N.add vbase (ns off) in
-            (match pool_new (lay bs ba) ptr (ns size) with
-             | Panic -> cmp "P" impl; dead := true
-             | Val p ->
-               cmp ("ok:" ^ sn p.p_nb ^ ":" ^ sn (N.sub p.p_start vbase)) impl;
-               st := SPool (p, ptr, N.add ptr (ns size)))
-          | SFixedPending [mx; bs; ba; off; size], "new" ->
-            let ptr = N.add vbase (ns off) in
-            let spec_total = (ns bs <> N0) && N.leb (align ptr (ns ba)) (N.add ptr (ns size)) in
-            (match fixed_pool_new (ns mx) N0 (lay bs ba) ptr (ns size) with
-             | Panic -> cmp "P" impl; dead := true
-             | Val p -> cmp ("ok:" ^ sn p.p_nb) impl; st := SPool (p, ptr, N.add ptr (ns size)));
-            (* c15_fixed_ctor_total_full: the constructor returns an allocator for every block *)
-            if impl = "P" && spec_total then mismatch_spec "ctor-returns" "P"
-          | SPool (p, lo, hi), "alloc" ->
-            let (p', r) = pool_allocate p (lay (a 0) (a 1)) in
-            cmp (show_ares vbase r) impl;
-            if is_ok then begin
-              cur_nontrivial := true;
-              let addr = N.add vbase (ns (String.sub impl 3 (String.length impl - 3))) in
-              oracle_alloc lo hi addr (ns (a 0)) (ns (a 1)) (String.sub impl 3 (String.length impl - 3))
-            end;
-            st := SPool (p', lo, hi)
-          | SPool (p, lo, hi), "dealloc" ->
-            (match pool_deallocate p (N.add vbase (ns (a 0))) with
-             | Panic -> cmp "P" impl; dead := true
-             | Val p' -> cmp "ok" impl; st := SPool (p', lo, hi));
-            oracle_dealloc (a 0)
-          (* ------------------------------------------------------------ bb bump *)
-          | SBump (b, lo, hi), "alloc" ->
-            let (b', r) = bump_allocate b (lay (a 0) (a 1)) in
-            cmp (show_ares vbase r) impl;
-            if is_ok then begin
-              cur_nontrivial := true;
-              oracle_alloc lo hi (N.add vbase (ns (String.sub impl 3 (String.length impl - 3)))) (ns (a 0)) (ns (a 1)) "-"
-            end;
-            st := SBump (b', lo, hi)
-          | SBump (b, _, _), "used" -> cmp (sn b.b_pos) impl
-          (* ------------------------------------------------------------ one chunk *)
-          | SOne (o, lo, hi), "alloc" ->
-            (match oc_allocate o (lay (a 0) (a 1)) with
-             | Panic -> cmp "P" impl; dead := true
-             | Val (o', r) ->
-               cmp (show_ares vbase r) impl;
-               if is_ok then begin
-                 cur_nontrivial := true;
-                 oracle_alloc lo hi (N.add vbase (ns (String.sub impl 3 (String.length impl - 3)))) (ns (a 0)) (ns (a 1)) (String.sub impl 3 (String.length impl - 3))
-               end;
-               st := SOne (o', lo, hi))
-          | SOne (o, lo, hi), "dealloc" ->
-            (match oc_deallocate o (N.add vbase (ns (a 0))) with
-             | Panic -> cmp "P" impl; dead := true
-             | Val o' -> cmp "ok" impl; st := SOne (o', lo, hi));
-            oracle_dealloc (a 0)
-          (* ------------------------------------------------------------ cal pool *)
-          | SCalPoolPending [bs; ba; off; size; maxmem], "new" ->
-            let ptr = N.add vbase (ns off) in
-            (match cal_new (ns maxmem) ptr (ns size) (lay bs ba) with
-             | Panic -> cmp "P" impl; dead := true
-             | Val c ->
-               cmp ("ok:" ^ sn c.cp_pool.p_nb ^ ":" ^ sn (cal_relative_start c)) impl;
-               st := SCalPool (c, ptr, N.add ptr (ns size)))
-          | SCalPool (c, _, _), "init" ->
-            cmp (if cal_init_ok c then "ok" else "err") impl; if impl <> "ok" then dead := true
-          | SCalPool (c, lo, hi), "alloc" ->
-            let (c', r) = cal_allocate c (lay (a 0) (a 1)) in
-            cmp (show_ares N0 r) impl;
-            if is_ok then begin
-              cur_nontrivial := true;
-              let v = ns (String.sub impl 3 (String.length impl - 3)) in
-              (* the pointer the shared memory hands out: payload start + offset *)
-              let addr = N.add (N.add lo (cal_relative_start c)) (po_offset v) in
-              oracle_alloc lo hi addr (ns (a 0)) (ns (a 1)) (String.sub impl 3 (String.length impl - 3))
-            end;
-            st := SCalPool (c', lo, hi)
-          | SCalPool (c, lo, hi), "dealloc" ->
-            (match cal_deallocate c (ns (a 0)) with
-             | Panic -> cmp "P" impl; dead := true
-             | Val c' -> cmp "ok" impl; st := SCalPool (c', lo, hi));
-            oracle_dealloc (a 0)
-          | SCalPool (c, _, _), "hint" ->
-            let (l, cnt) = cal_resize_hint c (lay (a 0) (a 1)) (strat_of (a 2)) in
-            cmp (sn l.lsize ^ ":" ^ sn l.lalign ^ ":" ^ sn (setup_payload_size l cnt)) impl
-          (* ------------------------------------------------------------ cal bump *)
-          | SCalBumpPending [off; size], "new" ->
-            let ptr = N.add vbase (ns off) in
-            let c = cb_new ptr (ns size) in
-            cmp ("ok:" ^ size ^ ":0") impl;
-            st := SCalBump (c, ptr, N.add ptr (ns size))
-          | SCalBump (c, lo, hi), "alloc" ->
-            let (c', r) = cb_allocate c (lay (a 0) (a 1)) in
-            cmp (show_ares N0 r) impl;
-            if is_ok then begin
-              cur_nontrivial := true;
-              let v = ns (String.sub impl 3 (String.length impl - 3)) in
-              oracle_alloc lo hi (N.add lo (po_offset v)) (ns (a 0)) (ns (a 1)) "-"
-            end;
-            st := SCalBump (c', lo, hi)
-          | SCalBump (c, lo, hi), "reset" ->
-            cmp "ok" impl; live := []; live_vals := []; st := SCalBump (cb_deallocate c, lo, hi)
-          | SCalBump (c, _, _), "hint" ->
-            cmp (sn (cb_resize_hint c (lay (a 0) (a 1)) (strat_of (a 2)))) impl
-          (* ------------------------------------------------------------ PointerOffset *)
-          | SCodec, "make" ->
-            let v = po_make (ns (a 0)) (ns (a 1)) in
-            cmp (sn v ^ ":" ^ sn (po_offset v) ^ ":" ^ sn (po_segment v)) impl;
-            cur_nontrivial := true;
-            (* c15_offset_codec: round trip below 2^56 *)
-            (match split_colon impl with
-             | [_; o; s] ->
-               if N.ltb (ns (a 0)) (ns "72057594037927936") && (o <> a 0 || s <> a 1) then mismatch_spec "roundtrip" impl
-               else bump_extra "oracle_codec_roundtrips"
-             | _ -> mismatch_spec "roundtrip" impl)
-          | SCodec, "setseg" ->
-            let v = po_set_segment (ns (a 0)) (ns (a 1)) in
-            cmp (sn v ^ ":" ^ sn (po_offset v) ^ ":" ^ sn (po_segment v)) impl;
-            (match split_colon impl with
-             | [_; o; s] -> if o <> sn (po_offset (ns (a 0))) || s <> a 1 then mismatch_spec "setseg-keeps-offset" impl
-             | _ -> mismatch_spec "setseg-keeps-offset" impl)
-          | SCodec, "raw" -> let v = ns (a 0) in cmp (sn (po_offset v) ^ ":" ^ sn (po_segment v)) impl
-          | SCodec, "new" -> cmp (sn (po_new (ns (a 0)))) impl
-          (* ------------------------------------------------------------ message_type_details *)
-          | SMtd m, "hdrlen" -> cmp (sn (all_headers_len m)) impl; cur_nontrivial := true
-          | SMtd m, "maxalign" -> cmp (sn (mtd_max_alignment m)) impl
-          | SMtd m, "layout" ->
-            let l = chunk_layout m (ns (a 0)) in
-            cmp (sn l.lsize ^ ":" ^ sn l.lalign) impl;
-            (* c15_chunk_layout_guard on the implementation's own numbers *)
-            (match split_colon impl with
-             | [s; al] -> if not (N.eqb (N.modulo (ns s) (ns al)) N0) then mismatch_spec "align-divides-size" impl
-                          else bump_extra "oracle_chunk_layouts_checked"
-             | _ -> mismatch_spec "align-divides-size" impl)
-          | SMtd m, "uptr" ->
-            cmp (sn (N.sub (user_header_ptr_from_header m (N.add vbase (ns (a 0)))) vbase)) impl;
-            if not (N.eqb (N.modulo (N.add vbase (ns impl)) m.m_uheader.td_align) N0) then mismatch_spec "user-header-aligned" impl
-          | SMtd m, "pptr" ->
-            cmp (sn (N.sub (payload_ptr_from_header m (N.add vbase (ns (a 0)))) vbase)) impl;
-            if not (N.eqb (N.modulo (N.add vbase (ns impl)) m.m_payload.td_align) N0) then mismatch_spec "payload-aligned" impl;
-            (* payload of n elements ends inside the chunk when the chunk start is aligned *)
-            let h = ns (a 0) in
-            if N.eqb (N.modulo h (mtd_max_alignment m)) N0 then
-              List.iter (fun nn ->
-                let l = chunk_layout m (n_of_int nn) in
-                let pend = N.add (ns impl) (N.mul (align m.m_payload.td_size m.m_payload.td_align) (n_of_int nn)) in
-                if not (N.leb pend (N.add h l.lsize)) then mismatch_spec "payload-inside-chunk" impl
-                else bump_extra "oracle_payload_fits_checked") [0; 1; 3; 100]
-          (* ------------------------------------------------------------ dynamic segments *)
-          | SDynPending (strat, hs, ha, nn, bm), "new" ->
-            let base = N.add vbase (ns bm) in
-            (match dyn_new (n_of_int 4096) base (strat_of strat) (lay hs ha) (ns nn) with
-             | Panic -> cmp "P" impl; dead := true
-             | Val None -> cmp "err" impl; dead := true
-             | Val (Some d) ->
-               cmp "ok" impl;
-               st := SDyn (d, view_new, N.eqb (N.modulo (ns hs) (ns ha)) N0, int_of_string nn))
-          | SDyn (d, _, guarded, nn), "cap0" ->
-            let start_misaligned = not (N.eqb (N.modulo d.d_base d.d_hint.lalign) N0) in
-            (match alookup N0 d.d_segs with
-             | Some sg -> cmp (sn (N.min sg.s_cal.cp_pool.p_nb (n_of_int (nn + 2)))) impl
-             | None -> mismatch_model "no-seg0" impl);
-            (* c15_segment_enough for the dynamic segment, on the implementation's own number *)
-            if guarded then
-              (if int_of_string impl < nn then
-                 mismatch_spec_sig (Printf.sprintf "cap0:lost=%d:misaligned=%b" (nn - int_of_string impl) start_misaligned)
-                   ("segment0-holds>=" ^ string_of_int nn) impl
-               else bump_extra "oracle_segment_enough_checked")
-          | SDyn (d, v, g, nn), "alloc" ->
-            (match dyn_allocate d (lay (a 0) (a 1)) with
-             | DPanic -> cmp "P" impl; dead := true
-             | DOutOfFuel -> mismatch_model "OutOfFuel" impl
-             | DVal (d', AErr e) -> cmp ("err:" ^ err_name e) impl; st := SDyn (d', v, g, nn)
-             | DVal (d', AOk off) ->
-               cur_nontrivial := true;
-               (match split_colon impl with
-                | ["ok"; value; aligned] ->
-                  if value <> sn off then mismatch_model ("ok:" ^ sn off) impl;
-                  if aligned <> "1" then mismatch_spec "payload-aligned" "misaligned" else bump_extra "oracle_dyn_alloc_aligned"
-                | _ -> mismatch_model ("ok:" ^ sn off) impl);
-               st := SDyn (d', v, g, nn))
-          | SDyn (d, v, g, nn), "dealloc" ->
-            (match dyn_deallocate d (ns (a 0)) with
-             | Panic -> cmp "P" impl; dead := true
-             | Val d' ->
-               (match split_colon impl with
-                | ["ok"; c] -> if c <> "1" then mismatch_spec "canary-intact" "corrupted" else bump_extra "oracle_canaries_checked"
-                | _ -> mismatch_model "ok" impl);
-               st := SDyn (d', v, g, nn))
-          | SDyn (d, v, g, nn), "reg" ->
-            let (v', r) = view_register (fun id -> match alookup id d.d_segs with Some _ -> true | None -> false) v (ns (a 0)) in
-            (match r with
-             | None -> cmp "err" impl; mismatch_spec "live-offset-resolves" "open-failed"
-             | Some (id, off) ->
-               (* the view resolves to (segment id, offset) of the offset the sender produced *)
-               if N.eqb id (po_segment (ns (a 0))) && N.eqb off (po_offset (ns (a 0))) then () else mismatch_model "resolve" impl;
-               (match split_colon impl with
-                | ["ok"; c] -> if c <> "1" then mismatch_spec "payload-readable-through-view" "corrupted" else bump_extra "oracle_canaries_checked"
-                | _ -> mismatch_model "ok" impl; mismatch_spec "live-offset-resolves" impl));
-            st := SDyn (d, v', g, nn)
-          | SDyn (d, v, g, nn), "unreg" ->
-            (match split_colon impl with
-             | ["ok"; c] -> if c <> "1" then mismatch_spec "payload-readable-until-release" "corrupted" else bump_extra "oracle_canaries_checked"
-             | _ -> mismatch_model "ok" impl);
-            st := SDyn (d, view_unregister v (ns (a 0)), g, nn)
-          | SDyn (d, v, _, _), "nsegs" -> cmp (sn (dyn_nsegs d) ^ ":" ^ sn (view_nsegs v)) impl
-          | SDyn _, "final" -> if impl <> "1" then mismatch_spec "all-live-canaries-intact" impl
-          (* ------------------------------------------------------------ pub/sub over a growing segment
-             (property-level observations only: aligned payloads, canaries intact across growth) *)
-          | SPubSub, ("send" | "recv") ->
-            if impl <> "ok:1" then mismatch_spec (name ^ "-ok-aligned-intact") impl
-            else (cur_nontrivial := true; bump_extra "oracle_pubsub_samples_checked")
-          | SPubSub, "held" -> if impl <> "1" then mismatch_spec "held-samples-intact-across-growth" impl else bump_extra "oracle_pubsub_held_checked"
-          | SPubSub, "run" -> if impl <> "ok" then mismatch_spec "scenario-completes" impl
-          | _, _ -> mismatch_model "unexpected-op" impl
+        let a i = List.nth args i in
+        if not !impl_dead then begin
+          oracle name a impl;
+          if not !model_dead then model name a impl
         end;
-        if impl = "P" then dead := true
+        if impl = "P" then impl_dead := true
       | [] -> ()
       | _ -> failwith ("bad line: " ^ line)
     done
